@@ -372,12 +372,15 @@ func execute(hs []histDesc) {
 			hi = len(hs)
 		}
 		recs := make([]*history, 0, hi-lo)
+		t0 := time.Now()
 		for _, d := range hs[lo:hi] {
 			caselog.Log(d)
 			runtime.GOMAXPROCS(d.Procs)
 			recs = append(recs, runHistory(d))
 		}
 		runtime.GOMAXPROCS(ncpu)
+		rep.Count("wall_ms_executing_histories", time.Since(t0).Milliseconds())
+		t0 = time.Now()
 		var wg sync.WaitGroup
 		sem := make(chan struct{}, ncpu)
 		for _, h := range recs {
@@ -390,6 +393,7 @@ func execute(hs []histDesc) {
 			}(h)
 		}
 		wg.Wait()
+		rep.Count("wall_ms_checking_histories", time.Since(t0).Milliseconds())
 	}
 }
 
@@ -407,7 +411,7 @@ func main() {
 		rep.Inconclusive("checker self-test failed (harness bug): %v", err)
 		rep.Finish()
 	}
-	rep.Count("checker_selftest_histories_ok", 11)
+	rep.Count("checker_selftest_histories_ok", 13)
 
 	if rep.ReplayFile != "" {
 		replay()
@@ -422,6 +426,7 @@ func main() {
 	cs := genCapacity(rng, rep.Thorough())
 
 	// capacity first: it is cheap and schedule-independent
+	t0 := time.Now()
 	for _, d := range cs {
 		caselog.Log(d)
 		runtime.GOMAXPROCS(d.Procs)
@@ -429,6 +434,7 @@ func main() {
 		runtime.GOMAXPROCS(ncpu)
 		judgeCapacity(r)
 	}
+	rep.Count("wall_ms_capacity_cases", time.Since(t0).Milliseconds())
 	execute(hs)
 	execute(ls)
 
